@@ -37,8 +37,8 @@ def run_checks(mod, pid: str, overlay: Overlay, tier: str, seed: int, only_key=N
     except AnalysisError as e:
         # a definite violation found before the analysis had to give up is still a violation; the part that could
         # not be decided is reported next to it
-        if not ctx.violations:
-            raise
+        if not split_known(pid, ctx.violations)[0]:
+            raise               # nothing but listed known findings: the run as a whole cannot tell
         ctx.note('analysis incomplete: %s' % e)
         ctx.stats['analysis_incomplete'] = str(e)
     return ctx
